@@ -16,7 +16,7 @@ meta = {
     "summary": a.get("summary"),
     "needs_to_manifest": a.get("needs_to_manifest"),
     "why_existing_tests_pass": a.get("why_existing_tests_pass"),
-    "origin": ("independent sub-agent (third round: the change had to matter only with a non-default option, a rarely used feature or a particular sequence of API calls) given only the property record and a scratch worktree" if sid.endswith("-c") else "independent sub-agent (fourth round: the change had to sit in a less travelled file or helper, or concern an unusual kind of module / specifier) given only the property record and a scratch worktree" if sid.endswith("-d") else "independent sub-agent (second round: asked for a change different in kind from an obvious one-line slip) given only the property record and a scratch worktree"),
+    "origin": ("independent sub-agent (seventh round: the defect had to be split over two cooperating sites that each look fine alone - a helper's contract and one of its callers, a writer and one of several readers, a producer and a consumer) given only the property record, the list of ideas used in earlier rounds and a scratch worktree" if sid.endswith("-g") else "independent sub-agent (eighth round) given only the property record, the list of ideas used in earlier rounds and a scratch worktree" if sid.endswith("-h") else "independent sub-agent (third round: the change had to matter only with a non-default option, a rarely used feature or a particular sequence of API calls) given only the property record and a scratch worktree" if sid.endswith("-c") else "independent sub-agent (fourth round: the change had to sit in a less travelled file or helper, or concern an unusual kind of module / specifier) given only the property record and a scratch worktree" if sid.endswith("-d") else "independent sub-agent (second round: asked for a change different in kind from an obvious one-line slip) given only the property record and a scratch worktree"),
     "confirmed_by_me": {
         "how": "tools/confirm_seeded.sh in the scratch worktree: demo passes on the clean tree, fails with patch.diff applied; pinned suite (cargo test --workspace --no-fail-fast --offline) with the patch; build with --features verif_hooks",
         "result_lines": lines,
